@@ -23,7 +23,6 @@ ASSUMPTIONS = ["panics of an execution happen on the OS thread that runs it (tas
 E = "shuttle_engine::runtime::execution::"
 F = "shuttle_engine::runtime::failure::"
 RUN = E + "Execution::run"
-RUN_CLOSURE = RUN + "::{closure#0}"
 PERSIST = F + "persist_failure"
 SE_PERSIST = E + "StepError::persist_failure"
 HOOK_INIT = F + "init_panic_hook"
@@ -36,7 +35,7 @@ def _diverging(body):
 
 def r1_persist_before_raise(ctx):
     prog = ctx.prog
-    b = ctx.body(RUN_CLOSURE, "C12.R1")
+    b = ctx.closure(RUN, RUN.rsplit("::", 1)[0] + "::run_to_completion", "C12.R1")
     rtc = [s for s, t in b.calls() if E + "Execution::run_to_completion" in b.callees_of_call(t, passed=False)]
     if not ctx.floor("C12.R1", "run_to_completion call in Execution::run", len(rtc), 1):
         return
@@ -176,7 +175,7 @@ def r4_silence(ctx):
     ctx.ob("C12.R4", "silent-path-guard", ok,
            "persisting in StepError::persist_failure is controlled by the error variant (self) and by config.max_steps", loc=sp.loc())
     # the step-bound panic in run is guarded by the max_steps variant
-    rc = ctx.body(RUN_CLOSURE, "C12.R4")
+    rc = ctx.closure(RUN, RUN.rsplit("::", 1)[0] + "::run_to_completion", "C12.R4")
     cd = control_deps(rc)
     sl3 = Slicer(rc, alias_defs=False)
     n = 0
@@ -191,7 +190,7 @@ def r4_silence(ctx):
 
 def r5_payload(ctx):
     prog = ctx.prog
-    rc = ctx.body(RUN_CLOSURE, "C12.R5")
+    rc = ctx.closure(RUN, RUN.rsplit("::", 1)[0] + "::run_to_completion", "C12.R5")
     ru = [(s, t) for s, t in rc.calls() if "std::panic::resume_unwind" in rc.callees_of_call(t, passed=False)]
     ctx.floor("C12.R5", "resume_unwind sites in Execution::run", len(ru), 2)
     sl = Slicer(rc, alias_defs=False)
